@@ -36,6 +36,11 @@ fn run_conc<K: gamma::HKey>(sc: &Value, scratch: &std::path::Path, out: &mut seq
 fn main() {
     let args: Vec<String> = std::env::args().collect();
     let cmd = args.get(1).map(String::as_str).unwrap_or("");
+    // Logging is part of the environment: with a subscriber at TRACE level every field expression of every tracing call in
+    // the crate is evaluated (Debug impls that take locks, slicing in a format argument, ...). The output goes nowhere.
+    if std::env::var("CASHARN_TRACE").as_deref() != Ok("0") {
+        let _ = tracing_subscriber::fmt().with_max_level(tracing::Level::TRACE).with_writer(std::io::sink).try_init();
+    }
     match cmd {
         "seq" => {
             let inp = arg(&args, "--in").expect("--in");
